@@ -579,7 +579,6 @@ func (e *nonNilEngine) explain(fn *ssa.Function, idx, d int) string {
 	return out
 }
 
-
 // apiVisible: the function can be called from outside the module (exported, and so is its receiver
 // type if it has one): the call sites in the module are not all there are.
 func apiVisible(fn *ssa.Function) bool {
